@@ -32,8 +32,16 @@ structure D where
   be : BeL
   cache : FS
   dirs : List Path := []
+  /-- dangling symlinks (target in a directory that does not exist) -/
+  links : List Path := []
 
-def D.st (d : D) : St := { be := fun k => bget d.be k, cache := d.cache, dirs := d.dirs }
+def D.st (d : D) : St := { be := fun k => bget d.be k, cache := { files := d.cache, links := d.links }, dirs := d.dirs }
+
+/-- the cache directory after a model step -/
+def D.withCache (d : D) (c : CD) : D := { d with cache := c.files, links := c.links }
+
+/-- something that is not a directory sits at `r` (a regular file or a dangling symlink): nothing can be created below -/
+def D.nonDirAt (d : D) (r : Path) : Bool := (fget d.cache r).isSome || d.links.contains r
 
 def pathOf (p : String) : Path := (p.splitOn "/").map String.toList
 
@@ -45,7 +53,8 @@ def addDirs (dirs : List Path) (ps : List Path) : List Path := ps.foldl (fun acc
 /-- regular files `path:size`, and the directories at depth ≥ 3 (those only plants create) as `path/` -/
 def layoutC (d : D) : String :=
   joinOr (d.cache.map (fun e => "/".intercalate (e.1.map String.ofList) ++ ":" ++ toString e.2.length)
-    ++ (d.dirs.filter (fun q => q.length ≥ 3)).map (fun q => "/".intercalate (q.map String.ofList) ++ "/"))
+    ++ (d.dirs.filter (fun q => q.length ≥ 3)).map (fun q => "/".intercalate (q.map String.ofList) ++ "/")
+    ++ d.links.map (fun q => "/".intercalate (q.map String.ofList) ++ "@"))
 
 def resStr : Res Bytes → String
   | .ok b => digest b
@@ -58,7 +67,7 @@ def stepOne (d : D) (s : String) : Option (String × D) :=
     | some t, some id, some x =>
       if h = "c" then
         let s' := writeBytes d.st t id (cb = "1") x
-        some ("ok", { d with be := bput d.be (t, id) x, cache := s'.cache })
+        some ("ok", { d.withCache s'.cache with be := bput d.be (t, id) x })
       else if h = "u" then some ("ok", { d with be := bput d.be (t, id) x })
       else none
     | _, _, _ => none
@@ -67,7 +76,7 @@ def stepOne (d : D) (s : String) : Option (String × D) :=
     | some t, some id =>
       if h = "c" then
         let s' := remove d.st t id (cb = "1")
-        some ("ok", { d with be := bdel d.be (t, id), cache := s'.cache })
+        some ("ok", { d.withCache s'.cache with be := bdel d.be (t, id) })
       else if h = "u" then some ("ok", { d with be := bdel d.be (t, id) })
       else none
     | _, _ => none
@@ -76,7 +85,7 @@ def stepOne (d : D) (s : String) : Option (String × D) :=
     | some t, some id =>
       if h = "c" then
         let (r, s') := readFull d.st t id
-        some (resStr r, { d with cache := s'.cache })
+        some (resStr r, d.withCache s'.cache)
       else if h = "u" then some (resStr (beReadFull d.st.be t id), d)
       else none
     | _, _ => none
@@ -86,7 +95,7 @@ def stepOne (d : D) (s : String) : Option (String × D) :=
       if off ≥ 4294967296 ∨ len ≥ 4294967296 then none else
       if h = "c" then
         let (r, s') := readPartial d.st t id (cb = "1") off len
-        some (resStr r, { d with cache := s'.cache })
+        some (resStr r, d.withCache s'.cache)
       else if h = "u" then some (resStr (beReadPartial d.st.be t id off len), d)
       else none
     | _, _, _, _ => none
@@ -96,7 +105,7 @@ def stepOne (d : D) (s : String) : Option (String × D) :=
       let list := blist d.be t
       if h = "c" then
         let s' := listWithSize L d.st t list
-        some (fmtListing list, { d with cache := s'.cache })
+        some (fmtListing list, d.withCache s'.cache)
       else if h = "u" then some (fmtListing list, d)
       else none
     | none => none
@@ -104,26 +113,33 @@ def stepOne (d : D) (s : String) : Option (String × D) :=
     if !goodPath p then none else
     (dataOf data).map (fun x =>
       let q := pathOf p
-      -- `create_dir_all(parent)` then `fs::write`: fails on a directory, and below a regular file
-      if hasDir d.dirs q || (parents q).any (fun r => (fget d.cache r).isSome) then ("err", d)
+      -- `create_dir_all(parent)` then `fs::write`: fails on a directory, through a dangling symlink, and below a non-directory
+      if hasDir d.dirs q || d.links.contains q || (parents q).any d.nonDirAt then ("err", d)
       else ("ok", { d with cache := fput d.cache q x, dirs := addDirs d.dirs (parents q) }))
   | ["m", p] =>
     if !goodPath p then none else
     let q := pathOf p
-    -- `create_dir_all`: fails when the path or one of its parents is a regular file
-    if (fget d.cache q).isSome || (parents q).any (fun r => (fget d.cache r).isSome) then some ("err", d)
+    -- `create_dir_all`: fails when the path or one of its parents is a regular file or a dangling symlink
+    if d.nonDirAt q || (parents q).any d.nonDirAt then some ("err", d)
     else some ("ok", { d with dirs := addDirs d.dirs (parents q ++ [q]) })
+  | ["k", p] =>
+    if !goodPath p then none else
+    let q := pathOf p
+    -- `create_dir_all(parent)` then `symlink`: fails when anything is at the path, or a parent is not a directory
+    if d.nonDirAt q || hasDir d.dirs q || (parents q).any d.nonDirAt then some ("err", d)
+    else some ("ok", { d with links := d.links ++ [q], dirs := addDirs d.dirs (parents q) })
   | ["t", p, n] =>
     if !goodPath p then none else
     match n.toNat? with
     | none => none
     | some n =>
       let q := pathOf p
-      match (if hasDir d.dirs q then none else fget d.cache q) with
+      match (if hasDir d.dirs q || d.links.contains q then none else fget d.cache q) with
       | some x => some ("ok", if n < x.length then { d with cache := fput d.cache q (x.take n) } else d)
       | none => some ("ok", d)
   | ["x", p] =>
-    if !goodPath p then none else some ("ok", { d with cache := fdel d.cache (pathOf p) })
+    if !goodPath p then none else
+    some ("ok", { d with cache := fdel d.cache (pathOf p), links := d.links.filter (fun q => q != pathOf p) })
   | ["f"] => some (layoutC d, d)
   | ["b"] =>
     some (joinOr (d.be.map (fun e => toString (tIdx e.1.1) ++ "/" ++ String.ofList e.1.2 ++ ":" ++ digest e.2)), d)
